@@ -261,6 +261,7 @@ func (r *Recorder) snapOpened(inc *Incarnation, f *SnapFileWrap) {
 		ctx.restoring = true
 		inc.restoring++
 	}
+	inc.openedLabel = md.LastIncludedIndex
 	r.ev("snapopen %s label=%d/%d", inc.Name(), md.LastIncludedIndex, md.LastIncludedTerm)
 }
 
@@ -274,6 +275,22 @@ func (r *Recorder) snapDiscarded(inc *Incarnation, f *SnapFileWrap) {
 	md := f.Metadata()
 	r.ev("snapdiscard %s label=%d/%d bytes=%d", inc.Name(), md.LastIncludedIndex, md.LastIncludedTerm, len(f.written))
 	r.probe("partial-snapshot-discarded")
+}
+
+// snapClosing: a snapshot file is about to be closed (see SnapFileWrap.Close).
+func (r *Recorder) snapClosing(inc *Incarnation, f *SnapFileWrap) {
+	md := f.Metadata()
+	if ctx := r.ctxByTask[r.c.Sim.Cur()]; ctx != nil && ctx.Msg.Kind == KindIS {
+		return // installed snapshots are judged when (and if) the close returns
+	}
+	key := fmt.Sprintf("%d/%d", md.LastIncludedIndex, md.LastIncludedTerm)
+	if r.visibleSnaps[key] == nil {
+		r.visibleSnaps[key] = map[uint64]bool{}
+	}
+	r.visibleSnaps[key][hashBytes(f.written)] = true
+	if ops, err := decodeSnapshot(f.written); err == nil && len(ops) > 0 && ops[len(ops)-1].Index > md.LastIncludedIndex {
+		r.setTaint(inc.Node, "F1")
+	}
 }
 
 // snapVisible: a snapshot file was closed (renamed into place): C10(a)(c).
@@ -742,7 +759,7 @@ func (r *Recorder) checkInstanceComplete(inc *Incarnation, a *authSeq) {
 			break
 		}
 		if !have[idx] {
-			r.violate("C10", "replica-skipped", r.tainted(inc.Node, "sequence", "F3"), "%s: the %d-th committed operation (index %d) was never applied, although the replica applied up to index %d (skipped)",
+			r.violate("C10", "replica-skipped", r.tainted(inc.Node, "sequence", "F3", "F2r"), "%s: the %d-th committed operation (index %d) was never applied, although the replica applied up to index %d (skipped)",
 				inc.Name(), k+1, idx, max)
 			break
 		}
